@@ -16,10 +16,13 @@ open Noulith
 its elements), `dkeys` a dictionary seen through iteration (its keys in iteration order), `dict` a
 dictionary *result* (keys, values, optional default; printed sorted by key).  `wrapped items pos`
 is `stream(seq)`, core.rs `WrappedVec(items, pos)`: a stream over a materialised sequence with a
-read position (elements before `pos` have been consumed by `next` / `drop` / `tail` / uncons). -/
+read position (elements before `pos` have been consumed by `next` / `drop` / `tail` / uncons).
+`frac isFloat twice` is a float (`isFloat`) or a rational whose exact value is `twice / 2`: numbers that
+are `==` to (and hash like) other numbers but print differently (`1`, `1.0`, `1/1`). -/
 inductive Val where
   | null
   | int (i : Int)
+  | frac (isFloat : Bool) (twice : Int)
   | str (cs : List Char)
   | list (xs : List Val)
   | bytes (bs : List Nat)
@@ -38,6 +41,9 @@ mutual
 def beq : Val → Val → Bool
   | null, null => true
   | int a, int b => a == b
+  | int a, frac _ b => 2 * a == b
+  | frac _ a, int b => a == 2 * b
+  | frac _ a, frac _ b => a == b
   | str a, str b => a == b
   | list a, list b => beqList a b
   | bytes a, bytes b => a == b
@@ -70,6 +76,9 @@ mutual
 def pcmp : Val → Val → Option Ordering
   | null, null => some .eq
   | int a, int b => some (cmpInt a b)
+  | int a, frac _ b => some (cmpInt (2 * a) b)
+  | frac _ a, int b => some (cmpInt a (2 * b))
+  | frac _ a, frac _ b => some (cmpInt a b)
   | str a, str b => some (lexTotal (fun x y => cmpNat x.toNat y.toNat) a b)
   | list a, list b => pcmpList a b
   | bytes a, bytes b => some (lexTotal cmpNat a b)
@@ -109,6 +118,7 @@ def wForce (items : List Val) (pos : Nat) : List Val := items.drop pos
 def truthy : Val → Bool
   | null => false
   | int i => i != 0
+  | frac _ t => t != 0
   | str cs => !cs.isEmpty
   | list xs => !xs.isEmpty
   | bytes bs => !bs.isEmpty
@@ -122,6 +132,32 @@ def ofBool (b : Bool) : Val := int (if b then 1 else 0)
 
 /-! ### canonical text (the format of `vharness::canon`) -/
 
+def hexPad16 (n : Nat) : String :=
+  String.ofList ((List.range 16).reverse.map fun i => hexDigitChar (n / 16 ^ i % 16))
+
+/-- IEEE-754 binary64 bit pattern of `twice / 2` (exact for |twice| < 2^53; zero is `+0.0`) -/
+def floatBits (twice : Int) : Nat :=
+  if twice == 0 then 0 else
+  let k := twice.natAbs
+  let b := Nat.log2 k
+  (if twice < 0 then 2 ^ 63 else 0) + (b + 1022) * 2 ^ 52 + (k - 2 ^ b) * 2 ^ (52 - b)
+
+/-- `Ratio` prints as `numer/denom` in lowest terms -/
+def ratText (twice : Int) : String :=
+  if twice % 2 == 0 then toString (twice / 2) ++ "/1" else toString twice ++ "/2"
+
+/-- the value `twice / 2` behind a bit pattern, when it is a multiple of one half -/
+def twiceOfBits (bits : Nat) : Option Int :=
+  if bits == 0 then some 0 else
+  let neg := bits / 2 ^ 63 % 2 == 1
+  let e := bits / 2 ^ 52 % 2048
+  let m := 2 ^ 52 + bits % 2 ^ 52
+  -- value = m * 2^(e - 1075), twice = m * 2^(e - 1074)
+  let t : Option Nat :=
+    if e ≥ 1074 then some (m * 2 ^ (e - 1074))
+    else if m % 2 ^ (1074 - e) == 0 then some (m / 2 ^ (1074 - e)) else none
+  t.map fun t => if neg then - (t : Int) else (t : Int)
+
 def utf8Hex (cs : List Char) : String := hexOfBytes ((String.ofList cs).toUTF8.toList.map (·.toNat))
 
 /-- insertion sort of rendered dictionary entries by key text (byte order, as Rust's `sort`) -/
@@ -133,6 +169,8 @@ mutual
 def render : Val → String
   | null => "null"
   | int i => toString i
+  | frac true t => "f:" ++ hexPad16 (floatBits t)
+  | frac false t => ratText t
   | str cs => "s:" ++ utf8Hex cs
   | list xs => "[" ++ joinWith "," (renderList xs) ++ "]"
   | bytes bs => "b:" ++ hexOfBytes bs
@@ -201,6 +239,11 @@ def value : Nat → List Char → Option (Val × List Char)
     | 'n' :: 'u' :: 'l' :: 'l' :: rest => some (null, rest)
     | 's' :: 't' :: 'r' :: 'e' :: 'a' :: 'm' :: '[' :: rest =>
       (values fuel rest).map fun (xs, r) => (stream xs, r)
+    | 'f' :: ':' :: rest =>
+      let (h, r) := spanP isHex rest
+      (match twiceOfBits (h.foldl (fun n c => 16 * n + (hexDigitVal c).getD 0) 0) with
+       | some t => some (frac true t, r)
+       | none => none)
     | 's' :: ':' :: rest => let (h, r) := spanP isHex rest; (strOfHex h).map fun s => (str s, r)
     | 'b' :: ':' :: rest => let (h, r) := spanP isHex rest; (bytesOfHex h).map fun b => (bytes b, r)
     | 'v' :: '[' :: rest => (ints (fuel + 1) rest).map fun (ns, r) => (vec ns, r)
@@ -221,10 +264,18 @@ def value : Nat → List Char → Option (Val × List Char)
     | '[' :: rest => (values fuel rest).map fun (xs, r) => (list xs, r)
     | '-' :: rest =>
       let (ds, r) := spanP isDigit rest
-      if ds.isEmpty then none else some (int (- (natOf ds : Int)), r)
+      if ds.isEmpty then none else
+      (match r with
+       | '/' :: '1' :: r' => some (frac false (-2 * (natOf ds : Int)), r')
+       | '/' :: '2' :: r' => some (frac false (- (natOf ds : Int)), r')
+       | _ => some (int (- (natOf ds : Int)), r))
     | _ =>
       let (ds, r) := spanP isDigit cs
-      if ds.isEmpty then none else some (int (natOf ds : Int), r)
+      if ds.isEmpty then none else
+      (match r with
+       | '/' :: '1' :: r' => some (frac false (2 * (natOf ds : Int)), r')
+       | '/' :: '2' :: r' => some (frac false (natOf ds : Int), r')
+       | _ => some (int (natOf ds : Int), r))
 /-- comma separated values up to the closing `]` -/
 def values : Nat → List Char → Option (List Val × List Char)
   | 0, _ => none
@@ -501,6 +552,7 @@ structure Lib where
   rsplit : List Char → List Char → List (List Char)
   rsplitn : List Char → List Char → Nat → List (List Char)
   merge : Option (Val → Val → Out Val) → List (List (Val × Val)) → Out (List (Val × Val))
+  joinE : List Nat → (Val → Out (List Nat)) → List Val → Out (List Nat)
 
 /-- lib.rs, loop for loop -/
 def implLib : Lib where
@@ -554,6 +606,7 @@ def implLib : Lib where
   rsplit := rsplit
   rsplitn := rsplitn
   merge := merge
+  joinE := joinE
 
 /-! ## `call`: builtin name + arguments ↦ result -/
 
@@ -680,6 +733,17 @@ def visited (f : Val → Out Val) : List Val → List Val
     match f x with
     | .ok _ => x :: visited f xs
     | _ => [x]
+
+/-- the bytes of one piece of a bytes-`join`: iterate it, `to_byte` every element -/
+def bytesOfPieceGo : List Val → Out (List Nat)
+  | [] => .ok []
+  | x :: xs =>
+    match toByte x with
+    | .ok b => (bytesOfPieceGo xs).map (b :: ·)
+    | .throw => .throw
+    | .panic => .panic
+
+def bytesOfPiece (v : Val) : Out (List Nat) := andThen v.iter bytesOfPieceGo
 
 def call (L : Lib) (name : String) (args : List Arg) : Out Val :=
   match name, args with
@@ -910,6 +974,7 @@ def call (L : Lib) (name : String) (args : List Arg) : Out Val :=
   | ".*", [.v a, .v (.int n)] => .ok (.list (List.replicate n.toNat a))
   | "*.", [.v (.int n), .v b] => .ok (.list (List.replicate n.toNat b))
   -- strings
+  | "join", [.v s, .v (.bytes sep)] => andThen s.iter fun xs => (L.joinE sep bytesOfPiece xs).map .bytes
   | "join", [.v s, .v (.str sep)] => andThen s.iter fun xs => .ok (.str (L.join sep display xs))
   | "split", [.v (.str s), .v (.str sep)] => .ok (.list ((L.split s sep).map .str))
   | "words", [.v (.str s)] => .ok (.list ((L.words s).map .str))
